@@ -760,11 +760,6 @@ Proof.
     eexists. split; [reflexivity|apply out_agrees_refl].
 Qed.
 
-Lemma wf_set_dead s T o v q0 w :
-  Wf s T -> nth_error (st_objs s) o = Some (Dead v q0) ->
-  Wf (with_objs s (set_nth (st_objs s) o w)) T -> True.
-Proof. trivial. Qed.
-
 Lemma setvalue_good s T i o v :
   Wf s T -> nth_error T i = Some o ->
   Good ((fst (obj_set_value s o v), T), snd (obj_set_value s o v))
